@@ -253,7 +253,7 @@ func main() {
 			same := true
 			for k := 0; k < 2; k++ {
 				x2, p2, _ := runOnce(sc, c)
-				if _, v2 := judge(x2, p2); v2 != viol {
+				if o2, _ := judge(x2, p2); o2 != outcome {
 					same = false
 				}
 			}
